@@ -6969,6 +6969,8 @@ ZSTD_compressSequences_internal(ZSTD_CCtx* cctx,
             cBlockSize = ZSTD_noCompressBlock(op, dstCapacity, ip, blockSize, lastBlock);
             FORWARD_IF_ERROR(cBlockSize, "Nocompress block failed");
             DEBUGLOG(5, "Block too small, writing out nocompress block: cSize: %zu", cBlockSize);
+            if (cctx->blockState.prevCBlock->entropy.fse.offcode_repeatMode == FSE_repeat_valid)
+                cctx->blockState.prevCBlock->entropy.fse.offcode_repeatMode = FSE_repeat_check;   /* same as below */
             cSize += cBlockSize;
             ip += blockSize;
             op += cBlockSize;
@@ -7011,8 +7013,6 @@ ZSTD_compressSequences_internal(ZSTD_CCtx* cctx,
             U32 cBlockHeader;
             /* Error checking and repcodes update */
             ZSTD_blockState_confirmRepcodesAndEntropyTables(&cctx->blockState);
-            if (cctx->blockState.prevCBlock->entropy.fse.offcode_repeatMode == FSE_repeat_valid)
-                cctx->blockState.prevCBlock->entropy.fse.offcode_repeatMode = FSE_repeat_check;
 
             /* Write block header into beginning of block*/
             cBlockHeader = lastBlock + (((U32)bt_compressed)<<1) + (U32)(compressedSeqsSize << 3);
@@ -7020,6 +7020,12 @@ ZSTD_compressSequences_internal(ZSTD_CCtx* cctx,
             cBlockSize = ZSTD_blockHeaderSize + compressedSeqsSize;
             DEBUGLOG(5, "Writing out compressed block, size: %zu", cBlockSize);
         }
+
+        /* We check that dictionaries have offset codes available for the first block. After the first block,
+         * the offcode table might not have large enough codes to represent the offsets in the data :
+         * this holds whatever the type of the block just emitted, raw and RLE included (see ZSTD_compressBlock_internal()) */
+        if (cctx->blockState.prevCBlock->entropy.fse.offcode_repeatMode == FSE_repeat_valid)
+            cctx->blockState.prevCBlock->entropy.fse.offcode_repeatMode = FSE_repeat_check;
 
         cSize += cBlockSize;
 
